@@ -389,6 +389,14 @@ def _check_nodeset(out, n, nodeset, want_base, filt, rnd, names, inst, ctx, tag)
                 return
             if "${" not in seed_src and got_seed != seed_src:
                 out.fail("C09.select", f"{tag}:seed", f"{n.path}: seed {got_seed!r}, expected {seed_src!r}")
+            if "${" in seed_src:
+                # "its own seed": the reference is read from this select (the same answer in the same repeat instance)
+                mm = re.search(r"seed\s*=\s*\$\{([^}]+)\}", expect.cell(n.cells, "parameters") or "")
+                tgt = names.get(mm.group(1)) if mm else None
+                if tgt and len(tgt) == 1:
+                    bad = refs.check_token(got_seed, inst, ctx, tgt[0].path, must_relative=refs.must_be_relative(n, tgt[0]) or None)
+                    if bad:
+                        out.fail("C09.select", f"{tag}:seed-ref:{bad[0]}", f"{n.path}: seed {seed_src!r}: {bad[1]}")
     elif s.startswith("randomize("):
         out.fail("C09.select", f"{tag}:randomize-unexpected", f"{n.path}: nodeset {s!r} randomized without randomize=true")
         return
